@@ -34,7 +34,7 @@ theorem ownEvent_pfx_element {inScope : List (Nat × Nat)} {isTop : Bool} {n : T
   exact ⟨_, rfl⟩
 
 /-- `render_output` panics only in the `Prefix` arm, and only on a node that is not an element. -/
-theorem renderHtml_panic {c : HtmlCtx} {s : FStack} {node : Tree} {parent : Option Tree} {o : Output}
+theorem renderHtml_panic {c : HtmlCtx} {s : HState} {node : Tree} {parent : Option Tree} {o : Output}
     (h : renderHtml c s node parent o = .panic) :
     ∃ p ns, o = .pfx p ns ∧ ∀ name, node.value ≠ .element name := by
   cases o with
@@ -51,7 +51,7 @@ theorem renderHtml_panic {c : HtmlCtx} {s : FStack} {node : Tree} {parent : Opti
     repeat' split at h
     all_goals cases h
 
-theorem renderHtmlAt_ne_panic (c : HtmlCtx) (t : Tree) (start : Path) (s : FStack) (p : Path) (o : Output)
+theorem renderHtmlAt_ne_panic (c : HtmlCtx) (t : Tree) (start : Path) (s : HState) (p : Path) (o : Output)
     (h : (p, o) ∈ genOutputs t start) : renderHtmlAt c t s p o ≠ .panic := by
   obtain ⟨n, inScope, isTop, hat, hown⟩ := genOutputs_tagged t start p o h
   unfold renderHtmlAt
